@@ -7,6 +7,7 @@ CONSTANTS
   MaxP = 1
   MaxTok = 2
   MaxClock = 6
+  Cancel = "none"
   Atomic = FALSE
 INVARIANTS SemSafe NoWedge RateBound
 CHECK_DEADLOCK FALSE
